@@ -274,6 +274,30 @@ func (m *vMonitor) after(x *vRun, o vOp, ob string) {
 				if !strings.Contains(m.before_, fmt.Sprintf("{%d ", ri.terminal[0].lockId)) {
 					m.report("C02:released-foreign", fmt.Sprintf("unlock %d succeeded for LockId %d although no such hold was outstanding: %s", o.req, ri.terminal[0].lockId, m.before_))
 				}
+				// levels: Rcount>0 removes one depth, Rcount=0 (or a priority-flagged request, which is not re-entrant) removes them all.
+				// Evaluated when exactly one hold with that LockId was outstanding before (a reused LockId makes the target ambiguous).
+				lid := ri.terminal[0].lockId
+				var was []vHoldSnap
+				for _, h := range m.beforeHolds {
+					if h.lockId == lid {
+						was = append(was, h)
+					}
+				}
+				if len(was) == 1 && x.v.db.status == STATE_LEADER && o.flag&1 == 0 {
+					left := 0
+					for _, h := range x.v.keySnap(o.key).holds {
+						if h.lockId == lid && h.req == was[0].req {
+							left = h.depth
+						}
+					}
+					want := 0
+					if o.rcount > 0 && o.tflag&0x10 == 0 && was[0].depth > 1 {
+						want = was[0].depth - 1
+					}
+					if left != want {
+						m.report("C02:unlock-levels", fmt.Sprintf("unlock %d (Rcount %d) of LockId %d at depth %d left depth %d, expected %d", o.req, o.rcount, lid, was[0].depth, left, want))
+					}
+				}
 			}
 		}
 	}
